@@ -104,4 +104,102 @@ theorem between_visible {g : Graph} {w : View} {s d : Node} {L : List Node} (h :
         simp only [List.mem_filter, vnodes] at hx
         exact hx.1.1
 
+theorem subset_foldl_insert (l : List Node) : ∀ (acc : List Node) (y : Node), y ∈ acc →
+    y ∈ l.foldl (fun acc x => if acc.contains x then acc else acc ++ [x]) acc := by
+  induction l with
+  | nil => intro acc y h; exact h
+  | cons a l ih =>
+    intro acc y h
+    simp only [List.foldl_cons]
+    apply ih
+    split
+    · exact h
+    · exact List.mem_append_left _ h
+
+theorem subset_expand {g : Graph} {w : View} {S : List Node} {y : Node} (h : y ∈ S) : y ∈ g.expand w S := by
+  unfold expand
+  exact subset_foldl_insert _ _ _ h
+
+theorem subset_reachFuel {g : Graph} {w : View} : ∀ (f : Nat) (S : List Node) (y : Node), y ∈ S → y ∈ g.reachFuel w f S := by
+  intro f
+  induction f with
+  | zero => intro S y h; exact h
+  | succ f ih => intro S y h; simp only [reachFuel]; exact ih _ _ (subset_expand h)
+
+theorem self_mem_reachSet (g : Graph) (w : View) (a : Node) : a ∈ g.reachSet w a := by
+  unfold reachSet
+  exact subset_reachFuel _ _ _ (by simp)
+
+/-- the destination belongs to `between` when both ends are visible, distinct, and the source reaches it -/
+theorem between_dst_mem {g : Graph} {w : View} {s d : Node} {L : List Node} (h : g.between w s d = some L)
+    (hs : s ∈ g.nodes) (hsv : w.okNode s = true) (hd : d ∈ g.nodes) (hdv : w.okNode d = true) (hne : s ≠ d)
+    (hr : d ∈ g.reachSet w s) : d ∈ L := by
+  unfold between at h
+  have h1 : (g.nodes.contains s && w.okNode s) = true := by simp [hs, hsv]
+  have h2 : (g.nodes.contains d && w.okNode d) = true := by simp [hd, hdv]
+  have h3 : (s == d) = false := by simpa using hne
+  simp only [h1, h2, h3, Bool.not_true, Bool.false_eq_true, if_false] at h
+  cases h
+  simp only [List.mem_filter, vnodes, Bool.and_eq_true, List.contains_iff_mem]
+  exact ⟨⟨hd, hdv⟩, hr, self_mem_reachSet g w d⟩
+
+/-- reachability along kept edges does not depend on which nodes the view shows (only `okEdge` is used) -/
+theorem VReach.of_okEdge {g : Graph} {w w' : View} (he : w.okEdge = w'.okEdge) {a b : Node} (h : VReach g w a b) :
+    VReach g w' a b := by
+  induction h with
+  | refl => exact .refl _
+  | tail _ hab ih =>
+    obtain ⟨e, h1, h2, h3, h4⟩ := hab
+    exact .tail ih ⟨e, h1, h2, h3, by rw [← he]; exact h4⟩
+
+/-! ### monotonicity in the view -/
+
+/-- `w'` shows at least the nodes `w` shows, and keeps the same edges -/
+def View.le (w w' : View) : Prop := (∀ u, w.okNode u = true → w'.okNode u = true) ∧ w.okEdge = w'.okEdge
+
+theorem vsuccs_mono {g : Graph} {w w' : View} (h : w.le w') {x y : Node} (hy : y ∈ g.vsuccs w x) : y ∈ g.vsuccs w' x := by
+  simp only [vsuccs, List.mem_map, List.mem_filter, Bool.and_eq_true, beq_iff_eq] at hy ⊢
+  obtain ⟨e, ⟨he, ⟨⟨⟨hu, hok⟩, h1⟩, h2⟩⟩, hv⟩ := hy
+  exact ⟨e, ⟨he, ⟨⟨⟨hu, by rw [← h.2]; exact hok⟩, h.1 _ h1⟩, h.1 _ h2⟩⟩, hv⟩
+
+theorem mem_foldl_insert_of_mem (l : List Node) : ∀ (acc : List Node) (y : Node), y ∈ l →
+    y ∈ l.foldl (fun acc x => if acc.contains x then acc else acc ++ [x]) acc := by
+  induction l with
+  | nil => intro acc y h; cases h
+  | cons a l ih =>
+    intro acc y h
+    simp only [List.foldl_cons]
+    rcases List.mem_cons.mp h with rfl | h1
+    · apply subset_foldl_insert
+      split
+      · next hc => exact List.contains_iff_mem.mp hc
+      · exact List.mem_append_right _ (by simp)
+    · exact ih _ y h1
+
+theorem mem_expand_of_succ {g : Graph} {w : View} {S : List Node} {x y : Node} (hx : x ∈ S) (hy : y ∈ g.vsuccs w x) :
+    y ∈ g.expand w S := by
+  unfold expand
+  apply mem_foldl_insert_of_mem
+  simp only [List.mem_flatMap]
+  exact ⟨x, hx, hy⟩
+
+theorem expand_mono {g : Graph} {w w' : View} (h : w.le w') {S S' : List Node} (hS : ∀ y ∈ S, y ∈ S') :
+    ∀ y ∈ g.expand w S, y ∈ g.expand w' S' := by
+  intro y hy
+  rcases mem_expand hy with h1 | ⟨x, hx, hyx⟩
+  · exact subset_expand (hS y h1)
+  · exact mem_expand_of_succ (hS x hx) (vsuccs_mono h hyx)
+
+theorem reachFuel_mono {g : Graph} {w w' : View} (h : w.le w') : ∀ (f : Nat) (S S' : List Node),
+    (∀ y ∈ S, y ∈ S') → ∀ y ∈ g.reachFuel w f S, y ∈ g.reachFuel w' f S' := by
+  intro f
+  induction f with
+  | zero => intro S S' hS y hy; exact hS y hy
+  | succ f ih => intro S S' hS y hy; simp only [reachFuel] at hy ⊢; exact ih _ _ (expand_mono h hS) y hy
+
+theorem reachSet_mono {g : Graph} {w w' : View} (h : w.le w') {a y : Node} (hy : y ∈ g.reachSet w a) :
+    y ∈ g.reachSet w' a := by
+  unfold reachSet at *
+  exact reachFuel_mono h _ _ _ (fun z hz => hz) y hy
+
 end MLPE.Graph
